@@ -35,7 +35,8 @@ type LoopSpec struct {
 // GhostStmt is a ghost statement anchored at a program point of a function.
 type GhostStmt struct {
 	Anchor string // e.g. "loop 1 body", "call reply#1 before", "entry"
-	Kind   string // assert | assume(not allowed) | use | set
+	Kind   string // assert | use | set
+	Target string // ghost variable assigned by set
 	Clause Clause
 }
 
@@ -61,6 +62,7 @@ type FuncSpec struct {
 	Line      int
 	Props     []string // property ids this contract serves
 	NoBody    bool
+	Dead      []string // canaries that must be unreachable (proved, not assumed)
 	Callbacks map[string]string // callee expr -> callback contract name
 }
 
@@ -90,7 +92,16 @@ type Lemma struct {
 	Props    []string
 }
 
+type Pred struct {
+	Name   string
+	Params []Param
+	Body   ast.Expr
+	Src    string
+}
+
 type Specs struct {
+	GhostVars map[string]string // name -> spec type
+	Preds     map[string]*Pred
 	Funcs     map[string]*FuncSpec
 	SpecFuncs map[string]*SpecFunc
 	Lemmas    map[string]*Lemma
@@ -161,11 +172,11 @@ func parseClause(text, file string, line int) Clause {
 var keywords = map[string]bool{"spec": true, "func": true, "trusted": true, "lemma": true, "requires": true,
 	"ensures": true, "ensures_on_panic": true, "may_panic": true, "modifies": true, "loop": true, "decreases": true,
 	"=": true, "witness": true, "ghost": true, "use": true, "assert": true, "replay_domain": true, "props": true,
-	"uninterpreted": true, "nobody": true, "callback": true, "end": true, "trigger": true}
+	"uninterpreted": true, "nobody": true, "callback": true, "end": true, "trigger": true, "ghostvar": true, "pred": true, "dead": true}
 
 // LoadSpecs reads every zz_contracts_verif.go below root plus extra files.
 func LoadSpecs(files []string) *Specs {
-	sp := &Specs{Funcs: map[string]*FuncSpec{}, SpecFuncs: map[string]*SpecFunc{}, Lemmas: map[string]*Lemma{}}
+	sp := &Specs{GhostVars: map[string]string{}, Preds: map[string]*Pred{}, Funcs: map[string]*FuncSpec{}, SpecFuncs: map[string]*SpecFunc{}, Lemmas: map[string]*Lemma{}}
 	for _, f := range files {
 		sp.loadFile(f)
 	}
@@ -226,6 +237,22 @@ func (sp *Specs) loadFile(file string) {
 			}
 		case "end":
 			curF, curS, curL = nil, nil, nil
+		case "ghostvar":
+			f := strings.Fields(rest)
+			if len(f) != 2 {
+				panic(fmt.Sprintf("%s:%d: ghostvar <name> <type>", base, rl.line))
+			}
+			sp.GhostVars[f[0]] = f[1]
+		case "pred":
+			// pred name(params) = expr
+			i := strings.Index(rest, "=")
+			m := headerRe.FindStringSubmatch("func " + strings.TrimSpace(rest[:i]))
+			if m == nil {
+				panic(fmt.Sprintf("%s:%d: bad pred header", base, rl.line))
+			}
+			c := parseClause(rest[i+1:], base, rl.line)
+			sp.Preds[m[3]] = &Pred{Name: m[3], Params: splitParams(m[4]), Body: c.Expr, Src: c.Src}
+			curF, curS, curL = nil, nil, nil
 		case "spec", "uninterpreted":
 			curF, curL = nil, nil
 			m := headerRe.FindStringSubmatch(strings.TrimSpace(rest))
@@ -270,7 +297,9 @@ func (sp *Specs) loadFile(file string) {
 			if m[2] != "" {
 				fs.RecvName = m[1]
 				rt := strings.TrimPrefix(m[2], "*")
-				if strings.Contains(rt, ".") {
+				if rt == "error" {
+					fs.Key = "error." + name
+				} else if strings.Contains(rt, ".") {
 					fs.Key = rt + "." + name
 				} else {
 					fs.Key = pkg + "." + rt + "." + name
@@ -335,6 +364,8 @@ func (sp *Specs) loadFile(file string) {
 			curF.MayPanic = true
 		case "may_panic":
 			mustF(curF, base, rl.line).MayPanic = true
+		case "dead":
+			mustF(curF, base, rl.line).Dead = append(curF.Dead, strings.Fields(rest)...)
 		case "nobody":
 			mustF(curF, base, rl.line).NoBody = true
 		case "modifies":
@@ -394,11 +425,18 @@ func (sp *Specs) loadFile(file string) {
 			anchor := strings.TrimSpace(rest[:i])
 			body := strings.TrimSpace(rest[i+2:])
 			kf := strings.Fields(body)[0]
-			if kf != "assert" && kf != "use" {
-				panic(fmt.Sprintf("%s:%d: ghost statement must be assert or use", base, rl.line))
+			if kf != "assert" && kf != "use" && kf != "set" {
+				panic(fmt.Sprintf("%s:%d: ghost statement must be assert, use or set", base, rl.line))
 			}
-			c := parseClause(strings.TrimSpace(strings.TrimPrefix(body, kf)), base, rl.line)
-			mustF(curF, base, rl.line).Ghost = append(curF.Ghost, GhostStmt{Anchor: anchor, Kind: kf, Clause: c})
+			btxt := strings.TrimSpace(strings.TrimPrefix(body, kf))
+			target := ""
+			if kf == "set" {
+				j := strings.Index(btxt, "=")
+				target = strings.TrimSpace(btxt[:j])
+				btxt = strings.TrimSpace(btxt[j+1:])
+			}
+			c := parseClause(btxt, base, rl.line)
+			mustF(curF, base, rl.line).Ghost = append(curF.Ghost, GhostStmt{Anchor: anchor, Kind: kf, Clause: c, Target: target})
 		case "witness":
 			mustF(curF, base, rl.line).Witness = append(curF.Witness, rest)
 		case "replay_domain":
@@ -412,7 +450,7 @@ func (sp *Specs) loadFile(file string) {
 var knownPkgs = map[string]bool{"strings": true, "bytes": true, "json": true, "errors": true, "fmt": true, "strconv": true,
 	"sync": true, "atomic": true, "time": true, "nats": true, "badger": true, "url": true, "sort": true, "utf8": true,
 	"taskqueue": true, "timerqueue": true, "keylock": true, "res": true, "store": true, "badgerstore": true,
-	"mockstore": true, "resprot": true, "reflect": true, "debug": true, "xid": true, "os": true, "logger": true}
+	"mockstore": true, "resprot": true, "reflect": true, "debug": true, "callback": true, "error": true, "http": true, "xid": true, "os": true, "logger": true}
 
 func isQualified(name string) bool {
 	i := strings.Index(name, ".")
